@@ -4,14 +4,13 @@ Session(scratch): compiles REPO/miasm/jitter/op_semantics.c and bn.c once (flags
 interpreter: -O3 -DNDEBUG -fno-strict-overflow; `exit` renamed so that the runtime's explicit refusals come back
 as a status instead of ending the child).  evaluate(items) translates every expression, wraps the C text of each
 into `void f_i(const uint64_t *in, uint64_t *out)`, compiles ONE shared object for the batch, and runs every
-(expression, assignment) in a forked child whose fd 1 is a file.  A child that dies is restarted after the call
-that killed it; that call is then re-run alone in a fresh child to confirm the attribution.
+(expression, assignment) in a child process (a small C runner that dlopens the object) whose fd 1 is a file.  A
+child that dies is restarted after the call that killed it; that call is then re-run alone in a fresh child to
+confirm the attribution.
 
 MEM_LOOKUP_* are provided here: memory is a total function of the 64-bit address (splitmix64 of address and key),
 little-endian, so that the translator and the arithmetic runtime are exercised, not the VM.
 """
-import ctypes
-import mmap
 import struct
 import os
 import re
@@ -130,6 +129,88 @@ int verif_call(int idx, const uint64_t *in, uint64_t *out, int cpu_seconds)
 	verif_armed = 0;
 	setitimer(ITIMER_VIRTUAL, &off, NULL);
 	return rc;
+}
+'''
+
+
+RUNNER_C = r'''
+#define _GNU_SOURCE
+#include <stdio.h>
+#include <stdlib.h>
+#include <stdint.h>
+#include <string.h>
+#include <unistd.h>
+#include <fcntl.h>
+#include <dlfcn.h>
+#include <sys/stat.h>
+
+/* verif_runner so plan res out err start only_one cpu_seconds
+   Evaluates plan[start..] (or plan[start] alone) with fd 1 / fd 2 redirected to files; one line per event in res:
+   B k (call k begins), R k rc o0 o1 o2 o3, S k size0 size1 (stdout grew), E k hex (stderr text of a refused call). */
+typedef int (*call_fn)(int, const uint64_t *, uint64_t *, int);
+typedef void (*init_fn)(void);
+
+static off_t fsize(int fd) { struct stat st; if (fstat(fd, &st)) return 0; return st.st_size; }
+
+int main(int argc, char **argv)
+{
+	int fo, fe, rfd, efd, start, only_one, cpu, k;
+	uint32_t n, i;
+	void *h;
+	call_fn call;
+	init_fn init;
+	FILE *pf;
+	int32_t *idx; uint32_t *nw; uint64_t **words;
+	off_t s0, e0;
+	if (argc != 9) return 98;
+	rfd = open(argv[3], O_WRONLY | O_CREAT | O_TRUNC, 0600);
+	fo = open(argv[4], O_WRONLY | O_CREAT | O_APPEND, 0600);
+	fe = open(argv[5], O_WRONLY | O_CREAT | O_APPEND, 0600);
+	efd = open(argv[5], O_RDONLY);
+	if (rfd < 0 || fo < 0 || fe < 0 || efd < 0) return 98;
+	start = atoi(argv[6]); only_one = atoi(argv[7]); cpu = atoi(argv[8]);
+	pf = fopen(argv[2], "rb");
+	if (!pf || fread(&n, 4, 1, pf) != 1) { dprintf(rfd, "X cannot read the plan\n"); return 98; }
+	idx = malloc(n * sizeof(*idx)); nw = malloc(n * sizeof(*nw)); words = malloc(n * sizeof(*words));
+	for (i = 0; i < n; i++) {
+		if (fread(&idx[i], 4, 1, pf) != 1 || fread(&nw[i], 4, 1, pf) != 1) { dprintf(rfd, "X short plan\n"); return 98; }
+		words[i] = malloc((nw[i] + 1) * 8);
+		if (fread(words[i], 8, nw[i], pf) != nw[i]) { dprintf(rfd, "X short plan\n"); return 98; }
+	}
+	fclose(pf);
+	dup2(fo, 1); dup2(fe, 2);
+	h = dlopen(argv[1], RTLD_NOW | RTLD_LOCAL);
+	if (!h) { dprintf(rfd, "X dlopen: %s\n", dlerror()); return 98; }
+	init = (init_fn)dlsym(h, "verif_init");
+	call = (call_fn)dlsym(h, "verif_call");
+	if (!init || !call) { dprintf(rfd, "X missing entry points\n"); return 98; }
+	init();
+	s0 = fsize(1); e0 = fsize(2);
+	for (k = start; k < (int)n; k++) {
+		uint64_t out[4] = {0, 0, 0, 0};
+		int rc;
+		off_t s1;
+		dprintf(rfd, "B %d\n", k);
+		rc = call(idx[k], words[k], out, cpu);
+		dprintf(rfd, "R %d %d %llx %llx %llx %llx\n", k, rc, (unsigned long long)out[0], (unsigned long long)out[1],
+			(unsigned long long)out[2], (unsigned long long)out[3]);
+		fflush(NULL);
+		s1 = fsize(1);
+		if (s1 != s0) { dprintf(rfd, "S %d %lld %lld\n", k, (long long)s0, (long long)s1); s0 = s1; }
+		if (rc != 0) {
+			off_t e1 = fsize(2);
+			if (e1 != e0) {
+				unsigned char buf[120]; ssize_t got, j;
+				got = pread(efd, buf, sizeof(buf), e0);
+				dprintf(rfd, "E %d ", k);
+				for (j = 0; j < got; j++) dprintf(rfd, "%02x", buf[j]);
+				dprintf(rfd, "\n");
+				e0 = e1;
+			}
+		}
+		if (only_one) break;
+	}
+	return 0;
 }
 '''
 
@@ -379,90 +460,58 @@ class Session(object):
                 plan.append((i, t, words))
         return plan
 
-    def _child(self, so, plan, start, mm, outpath, only_one):
-        # child process: never returns
-        try:
-            fd = os.open(outpath, os.O_WRONLY | os.O_CREAT | os.O_APPEND, 0o600)
-            os.dup2(fd, 1)
-            errpath = outpath + ".err"
-            dn = os.open(errpath, os.O_WRONLY | os.O_CREAT | os.O_APPEND, 0o600)
-            os.dup2(dn, 2)
-            esize0 = os.fstat(2).st_size
-            lib = ctypes.CDLL(so)
-            libc = ctypes.CDLL(None)
-            lib.verif_init()
-            call = lib.verif_call
-            call.restype = ctypes.c_int
-            out = (ctypes.c_uint64 * 4)()
-            size0 = os.fstat(1).st_size
-            pos = [8]
+    def build_runner(self):
+        if getattr(self, "runner", None):
+            return self.runner
+        src = os.path.join(self.scratch, "verif_runner.c")
+        exe = os.path.join(self.scratch, "verif_runner")
+        with open(src, "w") as f:
+            f.write(RUNNER_C)
+        rc, out = self._cc(["-O1", "-o", exe, src, "-ldl"], "runner")
+        if rc != 0:
+            raise RuntimeError("cannot compile the runner:\n%s" % out[-2000:])
+        self.runner = exe
+        return exe
 
-            def emit(data):
-                mm[pos[0]:pos[0] + len(data)] = data
-                pos[0] += len(data)
-                mm[0:8] = struct.pack("<Q", pos[0])
-            k = start
-            n = len(plan)
-            while k < n:
-                i, t, words = plan[k]
-                arr = (ctypes.c_uint64 * len(words))(*words)
-                emit(b"B %d\n" % k)
-                for j in range(4):
-                    out[j] = 0
-                rc = call(i, arr, out, CPU_LIMIT_S)
-                emit(b"R %d %d %x %x %x %x\n" % (k, rc, out[0], out[1], out[2], out[3]))
-                libc.fflush(None)
-                size1 = os.fstat(1).st_size
-                if size1 != size0:
-                    emit(b"S %d %d %d\n" % (k, size0, size1))
-                    size0 = size1
-                if rc != 0:
-                    esize1 = os.fstat(2).st_size
-                    if esize1 != esize0:
-                        with open(errpath, "rb") as ef:
-                            ef.seek(esize0)
-                            emit(b"E %d %s\n" % (k, ef.read(120).hex().encode()))
-                        esize0 = esize1
-                k += 1
-                if only_one:
-                    break
-            os._exit(0)
-        except BaseException:
+    def _plan_file(self, plan):
+        cached = getattr(self, "_planfile_cache", None)
+        if cached is not None and cached[0] is plan:
+            return cached[1]
+        self._planfile_n = getattr(self, "_planfile_n", 0) + 1
+        path = os.path.join(self.scratch, "plan%d.bin" % self._planfile_n)
+        with open(path, "wb") as f:
+            f.write(struct.pack("<I", len(plan)))
+            for (i, t, words) in plan:
+                f.write(struct.pack("<iI%dQ" % len(words), i, len(words), *words))
+        if cached is not None:
             try:
-                import traceback
-                msg = ("X " + traceback.format_exc().replace("\n", " | "))[:1500].encode("ascii", "replace") + b"\n"
-                end = struct.unpack("<Q", mm[0:8])[0]
-                mm[end:end + len(msg)] = msg
-                mm[0:8] = struct.pack("<Q", end + len(msg))
-            finally:
-                os._exit(98)
+                os.unlink(cached[1])
+            except OSError:
+                pass
+        self._planfile_cache = (plan, path)
+        return path
 
     def _run_child(self, so, plan, start, only_one=False):
-        """-> (records, died) ; records: list of parsed result lines"""
+        """run plan[start:] (or plan[start] alone) in a fresh process -> (result lines, how it died or None)"""
         outpath = os.path.join(self.scratch, "stdout.bin")
-        ncalls = 1 if only_one else len(plan) - start
-        mm = mmap.mmap(-1, 8192 + 160 * ncalls)     # anonymous shared memory: survives the death of the child
-        mm[0:8] = struct.pack("<Q", 8)
+        respath = os.path.join(self.scratch, "res.txt")
         self.stats["children"] += 1
-        pid = os.fork()
-        if pid == 0:
-            self._child(so, plan, start, mm, outpath, only_one)
-        _, st = os.waitpid(pid, 0)
-        end = struct.unpack("<Q", mm[0:8])[0]
-        lines = mm[8:end].decode("ascii").split("\n")
-        mm.close()
+        p = subprocess.run([self.build_runner(), so, self._plan_file(plan), respath, outpath, outpath + ".err",
+                            str(start), "1" if only_one else "0", str(CPU_LIMIT_S)],
+                           stdin=subprocess.DEVNULL, stdout=subprocess.DEVNULL, stderr=subprocess.DEVNULL)
+        with open(respath) as f:
+            lines = f.read().split("\n")
         died = None
-        if os.WIFSIGNALED(st):
-            sig = os.WTERMSIG(st)
+        if p.returncode < 0:
             try:
-                died = "crash:" + signal.Signals(sig).name
+                died = "crash:" + signal.Signals(-p.returncode).name
             except ValueError:
-                died = "crash:signal%d" % sig
-        elif os.WEXITSTATUS(st) == 97:
+                died = "crash:signal%d" % -p.returncode
+        elif p.returncode == 97:
             died = "exit-unarmed"
-        elif os.WEXITSTATUS(st) != 0:
-            raise RuntimeError("harness child failed (status %d): %s" % (os.WEXITSTATUS(st),
-                                                                        [ln for ln in lines if ln.startswith("X ")]))
+        elif p.returncode != 0:
+            raise RuntimeError("harness runner failed (status %d): %s" % (p.returncode,
+                                                                          [ln for ln in lines if ln.startswith("X ")]))
         return lines, died
 
     def run(self, items, so):
